@@ -524,8 +524,6 @@ def _params_for(rng, op, case, tier, bad):
                 idxs.insert(rng.randrange(len(idxs) + 1), b - 1)      # one before the first image
             if src == "csv" or (src == "txt" and not idxs):
                 src = "list"
-        if src == "txt" and len(idxs) == 1 and rng.random() < 0.85:   # the single-entry text file is known finding C15-K1: keep it rare
-            src = "array"
         out.update(idxs=idxs, base1=base1, idx_src=src)
         if src == "csv":
             out["csv_removed_col"] = rng.random() < 0.3
@@ -607,7 +605,7 @@ def _new_seq(rng, tier):
         st = dict(op=op, n=n, h=h, w=w, dtype=case["dtype"])
         st.update(_params_for(rng, op, st, tier, False))
         if op == "remove":
-            st["idx_src"] = rng.choice(["array", "array", "array", "list", "txt" if len(st["idxs"]) > 1 else "array"])
+            st["idx_src"] = rng.choice(["array", "array", "array", "list", "txt"])
         if op == "sort":
             st["angles"] = st["angles"][:n] if len(st["angles"]) >= n else [f2b(float(i * 3 - 20)) for i in rng.sample(range(n), n)]
             st["ang_src"] = rng.choice(["array", "array", "list", "tlt"])
@@ -1461,13 +1459,7 @@ def sample_view(case):
 
 
 def classify(case, obs, finding):
-    """C15-K1: a text index file with exactly one entry makes remove_tilts raise TypeError (np.loadtxt returns a 0-d array)"""
-    if finding.get("clause") != "raises-on-valid-input" or "scalar-index" not in finding.get("detail", ""):
-        return None
-    steps = case["steps"] if case["op"] == "seq" else [case]
-    if any(s["op"] == "remove" and _src_of(s, "idx_src") == "txt" and len(s["idxs"]) == 1 for s in steps):
-        return "C15-K1"
-    return None
+    return None      # no open known finding (the former C15-K1, one-entry text index file, is fixed in the repository: 068f224)
 
 
 # ------------------------------------------------------------------ probes of recorded assumptions
@@ -1510,6 +1502,6 @@ LEVEL_TEXT = ("Lean 4 theorems about an executable model of the tilt-stack opera
 LEVEL_NOTE = ("trusted: Lean kernel; translator anchors; harness MRC parser; numpy indexing and mrcfile I/O are modelled, not verified; binning is proved as "
               "exact block means over a field, the int16 cast is modelled as truncation toward zero (proved, compared exactly), the float32 rounding of the real "
               "code is only validated (exact on the generated dyadic inputs); angle lists of another length than the stack, tuple axes and empty index files are "
-              "outside the statement and only compared with the model; open finding C15-K1 (one-entry text index file raises TypeError)")
+              "outside the statement and only compared with the model")
 TECHNIQUE = "Lean 4 proof (list induction, permutation/sortedness of merge sort, index algebra of transposition and reshape) + regenerated anchors + exact differential correspondence"
 DESIGN_REF = "DESIGN.md section 4, C15"
